@@ -312,7 +312,7 @@ def run(prog, rep):
                 if native != "created":
                     P5.append(("pthread_key_delete on a key that was not created in this call", line(c)))
                 native = "deleted"
-            elif cn == "p_free" and root_var(c["args"][0]) == var:
+            elif cn == "p_free" and var is not None and root_var(c["args"][0]) in gk.copies_of(var):
                 if holder == "freed":
                     P5.append(("the key holder is freed twice", line(c)))
                 if holder == "published":
@@ -329,8 +329,8 @@ def run(prog, rep):
             rv = strip_casts(stmt.get("e"))
             if holder == "live" or (holder == "cas"):
                 P5.append(("a path returns with the key holder allocated in this call neither published nor freed", line(stmt)))
-            if holder == "freed" and rv is not None and rv["k"] == "ref" and rv["name"] == var and not any(
-                    fop == "=:" and fk == var and "->key" in str(fv) for (fk, fop, fv) in facts2):
+            if holder == "freed" and rv is not None and rv["k"] == "ref" and var is not None and rv["name"] in gk.copies_of(var) and not any(
+                    fop == "=:" and fk in gk.copies_of(var) and "->key" in str(fv) for (fk, fop, fv) in facts2):
                 P5.append(("the freed key holder is returned to the caller", line(stmt)))
             if holder == "lost":
                 counts["loser"] += 1
